@@ -105,6 +105,27 @@ CLAIMED = {
         technique="TLA+ exact-arithmetic spec + TLC lattice enumeration, replay into all solvers",
         ref="5/C20",
     ),
+    "C08": dict(
+        level="model_checking",
+        text="ForceJacobians.tla states the scalar interactions (two-point distance with rate and force direction; revolute angle with rate and "
+             "force direction) and the elements on them (spring, Kelvin-Voigt in force and compliance form, Maxwell with its damper coordinate, "
+             "motor, PD and PID controller with its integral state, dead and follower forces and moments) once, in dual numbers a + eps b over "
+             "exact rationals (square root with a given, checked root; the angle of a planar vector through its derivative only): the eps part of "
+             "a quantity evaluated with the state moved by eps along a direction is its derivative along that direction, nothing is approximated. "
+             "TLC checks the dual results against closed forms on a lattice and rejects the as-found Maxwell column. Real TwoPointInteraction / "
+             "Revolute objects between rigid bodies, point masses and frames with every law and actuator class are assembled into Systems and "
+             "evaluated at rational states; for every coordinate direction of q (incl. internal coordinates) and u one record carries the direction "
+             "data of the subsystems and the matching columns of l_q, l_dot_q, l_dot_u, W_l_q, h_q, h_u, c_q, c_u, c_la_c, Wla_c_q, Wla_tau_q, "
+             "Wla_tau_u, q_dot_q; TLC recomputes every record and names the first routine that differs; the matrices System assembles are "
+             "compared with the scatter of the local ones.",
+        note="Claimed on rational configurations only: integer positions/velocities, integer quaternions (octahedral and non-octahedral, several "
+             "lengths), Pythagorean point separations; the revolute angle's reference is chosen so that the elongation is a lattice number. The "
+             "direction data of the subsystems come from the subsystems' own routines (exactness decided under C04). Rods as subsystems and "
+             "n-point interactions are not covered. Floats become rationals by Fraction.limit_denominator(2^20), reported values that are not "
+             "such rationals to 1e-11 are violations; corrupted records must be rejected (self-test).",
+        technique="TLA+ dual-number (exact rational) specification model-checked by TLC + TLC trace validation of Jacobian columns recorded from the real elements",
+        ref="5/C08",
+    ),
     "C09": dict(
         level="model_checking",
         text="ForceLawAssembly.tla models System.assemble as phase 1 (t0, index sets, q0) plus assembler callbacks in list order with what "
@@ -363,7 +384,6 @@ CLAIMED = {
 
 NOT_APPLICABLE = {
     "C03": "derivatives of transcendental SO(3)/SE(3) maps down to 1e-9 angles: real analysis / high-precision arithmetic, no state, no rational core for TLC (32-bit integers, no reals)",
-    "C08": "all listed Jacobians differentiate through ||r|| or arctan (or controller state): not rational, the exact-stencil argument does not apply; only float finite differences remain, which is a different technique",
     "C10": "rod strain energy/forces are Gauss-quadrature integrals of normalised / transcendental fields: neither finite-state nor rational, nothing for a TLA+ model to state",
     "C11": "same as C10 for all rod Jacobians and interpolation maps (mesh layer is C13, caches C26)",
     "C19": "convergence order, secular energy drift and reversibility up to tolerance are asymptotic real-valued trajectory properties; the rational fragment does not exercise constraints or stage 2",
